@@ -536,20 +536,85 @@ fn stack_and_neighbours_probe(rep: &mut Report) {
         }
         Err(_) => rep.violation("C13/panic/stack-probe-thread", json!({})),
     }
+    // (b0) searches HELD in flight: 48 threads are each parked inside a custom function 30 levels down
+    // their expression while this thread searches; what it gets must not depend on their being there
+    {
+        use std::sync::atomic::{AtomicBool, AtomicUsize, Ordering};
+        let arrived = std::sync::Arc::new(AtomicUsize::new(0));
+        let release = std::sync::Arc::new(AtomicBool::new(false));
+        let mut rt = Runtime::new();
+        rt.register_builtin_functions();
+        {
+            let (arrived, release) = (arrived.clone(), release.clone());
+            rt.register_function(
+                "hold",
+                Box::new(move |_: &[Rcvar], _: &mut Context<'_>| {
+                    arrived.fetch_add(1, Ordering::SeqCst);
+                    let t0 = std::time::Instant::now();
+                    while !release.load(Ordering::SeqCst) && t0.elapsed().as_secs() < 20 {
+                        std::thread::yield_now();
+                    }
+                    Ok(Rcvar::new(jmespath::Variable::Bool(true)))
+                }),
+            );
+        }
+        let rt: &'static Runtime = Box::leak(Box::new(rt));
+        let parked = 48;
+        let nest = 30;
+        let text: &'static str = Box::leak(format!("{}hold(){}", "[".repeat(nest), "]".repeat(nest)).into_boxed_str());
+        let hs: Vec<_> = (0..parked)
+            .map(|_| {
+                std::thread::spawn(move || {
+                    let doc = rcvar_of(&json!({"z": 0}));
+                    rt.compile(text).and_then(|e| e.search(&doc)).map(|v| v.to_string().len()).map_err(|e| e.to_string())
+                })
+            })
+            .collect();
+        let t0 = std::time::Instant::now();
+        while arrived.load(Ordering::SeqCst) < parked && t0.elapsed().as_secs() < 15 {
+            std::thread::yield_now();
+        }
+        let all_parked = arrived.load(Ordering::SeqCst) == parked;
+        let doc = rcvar_of(&json!({"foo": {"bar": 7}, "people": [{"name": "amy", "age": 40}, {"name": "bob", "age": 20}, {"name": "cid", "age": 31}]}));
+        let mut observed = vec![];
+        for q in ["foo.bar", "people[?age > `30`].name | sort(@) | join(', ', @)", "[[[[foo.bar]]]]"] {
+            observed.push((q, fingerprint(&jmespath::compile(q).and_then(|e| e.search(&doc))), fingerprint(&rt.compile(q).and_then(|e| e.search(&doc)))));
+        }
+        release.store(true, Ordering::SeqCst);
+        let held_ok = hs.into_iter().map(|h| h.join()).filter(|r| matches!(r, Ok(Ok(_)))).count();
+        let wants = ["ok:7", "ok:\"amy, cid\"", "ok:[[[[7]]]]"];
+        for ((q, a, b), w) in observed.into_iter().zip(wants) {
+            rep.evaluations += 2;
+            if a == w && b == w {
+                rep.count("search_next_to_parked_searches_ok");
+            } else {
+                rep.violation(
+                    "C13/result-depends-on-history/what-other-threads-are-doing",
+                    json!({"expression": q, "searches_parked_in_flight": parked, "their_nesting": nest, "expected": w, "default_runtime": a, "custom_runtime": b}),
+                );
+            }
+        }
+        if !all_parked {
+            rep.count("parked_probe_incomplete(not all threads arrived in 15 s)");
+        } else if held_ok != parked {
+            rep.violation("C13/result-depends-on-history/what-other-threads-are-doing", json!({"parked_searches": parked, "completed_normally": held_ok, "their_nesting": nest}));
+        }
+    }
     // (b) simultaneous nested searches
-    let threads = 16;
-    let depth = 90;
-    let text = format!("{}foo.bar{}", "[".repeat(depth), "]".repeat(depth));
-    let want = format!("ok:{}7{}", "[".repeat(depth), "]".repeat(depth));
+    // (the innermost expression does real work, so that every thread is at full depth for a while)
+    let threads = 32;
+    let depth = 110;
+    let text = format!("{}sort_by(big, &k)[0].k{}", "[".repeat(depth), "]".repeat(depth));
+    let want = format!("ok:{}0{}", "[".repeat(depth), "]".repeat(depth));
     let barrier = std::sync::Arc::new(std::sync::Barrier::new(threads));
     let hs: Vec<_> = (0..threads)
         .map(|t| {
             let (text, want, barrier) = (text.clone(), want.clone(), barrier.clone());
             std::thread::spawn(move || {
-                let doc = rcvar_of(&json!({"foo": {"bar": 7}}));
+                let doc = rcvar_of(&json!({"foo": {"bar": 7}, "big": (0..300).map(|i| json!({"k": (i * 7919) % 300})).collect::<Vec<_>>()}));
                 let e = jmespath::compile(&text);
                 let mut bad = vec![];
-                for round in 0..40 {
+                for round in 0..60 {
                     barrier.wait();
                     let g = fingerprint(&e.clone().and_then(|x| x.search(&doc)));
                     let flat = fingerprint(&jmespath::compile("foo.bar").and_then(|x| x.search(&doc)));
@@ -562,7 +627,7 @@ fn stack_and_neighbours_probe(rep: &mut Report) {
         })
         .collect();
     for h in hs {
-        rep.evaluations += 80;
+        rep.evaluations += 120;
         match h.join() {
             Ok(bad) if bad.is_empty() => rep.count("simultaneous_nested_searches_ok"),
             Ok(bad) => rep.violation("C13/result-depends-on-history/what-other-threads-are-doing", json!({"threads": threads, "nesting": depth, "first": bad[0]})),
